@@ -703,6 +703,13 @@ class Interp:
                     if not self.branch(ent[0]):
                         raise PanicEx('map index: key not found: %r' % (idx,), e)
                 return Ref(base.addr, base.path + (('k', key),))
+            if isinstance(cont, Opaque) and cont.tag == 'Captures':
+                g = cont.get('groups')
+                if isinstance(idx, int):
+                    if idx >= len(g) or g[idx] is None:
+                        raise PanicEx('no capture group at index %r' % (idx,), e)
+                    return Ref(self.alloc(g[idx]), ())
+                raise Unsupported('named capture groups', e)
             if isinstance(cont, Opaque) and cont.tag == 'Buffer' and isinstance(idx, Opaque) and idx.tag == 'Range':
                 return Ref(self.alloc(Opaque('Slice', chunk=cont.get('chunk'), upto=idx.get('end'))), ())
             if isinstance(cont, RVec):
